@@ -81,6 +81,20 @@ static void run_combo(vf::Ctx& ctx, int n, const std::string& name)
     const VecCLD yl = y1.template cast<CLD>();
     const LD err = fnorm(VecCLD(Fs * yl - x.template cast<CLD>())), allow = C * n * unit<T>() * (fnorm(Fs) * fnorm(yl) + fnorm(x.template cast<CLD>()));
     if (!within(ctx, "solve-residual", err, allow)) bad("perform_op-not-inv(A-sigma*B)*x", err, allow);
+    // the same pencil with A and B handed over as blocks / maps / expressions (dense) or uncompressed / mapped / inner panels / expressions (sparse)
+    with_presentations(A1, [&](const auto& ra, const char* pa) {
+        with_presentations(B1, [&](const auto& rb, const char* pb) {
+            const std::string tag = std::string(pa) + "+" + pb;
+            ctx.count("presentation/" + tag);
+            DVec<T> y(n);
+            try { Op o(ra, rb); o.set_shift(sigma); o.perform_op(x.data(), y.data()); }
+            catch (const std::invalid_argument&) { bad(("well-conditioned-shift-rejected/" + tag).c_str(), 0, 0); return; }
+            if (!all_finite(y)) { bad(("non-finite-output/" + tag).c_str(), 0, 0); return; }
+            const VecCLD yp = y.template cast<CLD>();
+            const LD e = fnorm(VecCLD(Fs * yp - x.template cast<CLD>())), al = C * n * unit<T>() * (fnorm(Fs) * fnorm(yp) + fnorm(x.template cast<CLD>()));
+            if (!within(ctx, "solve-residual", e, al)) bad(("perform_op-not-inv(A-sigma*B)*x/" + tag).c_str(), e, al);
+        });
+    });
 }
 
 template <int Code>
